@@ -13,16 +13,22 @@ def writers():
     d["WIn"] = struct([field(1, "default", T("i32")), field(2, "optional", T("string", True)),
                        field(3, "default", L(T("i16"))), field(4, "optional", T("double", True)),
                        field(6, "optional", ST("WIn", True))])
-    d["WScal"] = struct([field(1, "default", T("bool")), field(2, "default", T("i8")), field(3, "default", T("i16")),
+    d["WScal"] = struct([field(0, "default", T("i16")), field(1, "default", T("bool")), field(2, "default", T("i8")), field(3, "default", T("i16")),
                          field(4, "default", T("i32")), field(5, "default", T("i64")), field(6, "default", T("double")),
                          field(7, "default", T("enum")), field(8, "default", T("string")), field(9, "default", T("binary")),
                          field(10, "optional", T("i32", True)), field(11, "optional", T("string", True))])
-    d["WCont"] = struct([field(1, "default", L(T("i32"))), field(2, "default", SET(T("string"))),
+    d["WCont"] = struct([field(0, "default", L(T("i32"))), field(1, "default", L(T("i32"))), field(2, "default", SET(T("string"))),
                          field(3, "default", M(T("i32"), T("string"))), field(4, "default", L(ST("WIn", True))),
                          field(5, "default", M(T("string"), ST("WIn", True))), field(6, "optional", ST("WIn", True)),
                          field(7, "default", ST("WIn", False)), field(8, "default", L(L(T("i64")))),
                          field(9, "default", M(T("i16"), L(T("string")))), field(10, "optional", M(ST("WIn", True), T("i8"))),
                          field(11, "default", L(ST("WIn", False)))])
+    # every field an optional container: with all others nil, a field is the only (hence last) thing in the message
+    d["WOpt"] = struct([field(1, "optional", L(L(T("i64")))), field(2, "optional", M(T("i16"), L(T("string")))),
+                        field(3, "optional", SET(L(T("binary")))), field(4, "optional", L(M(T("i32"), T("i32")))),
+                        field(5, "optional", M(T("string"), M(T("i32"), T("string")))), field(6, "optional", L(T("string"))),
+                        field(7, "optional", L(T("binary"))), field(8, "optional", M(T("string"), T("string"))),
+                        field(9, "optional", L(ST("WIn", True))), field(10, "optional", M(T("string"), SET(T("i8"))))])
     return d
 
 
@@ -89,9 +95,9 @@ def build_pairs(rng, quick=True):
     f = copy.deepcopy(win); f[0]["def"] = [0, 0, 0, 77]
     tin_init = P.reader("WIn", f, "in-init", init=True)
     P.defs[tin_init]["fields"][1]["def"] = {"p": 0}
-    for wname in ("WScal", "WCont"):
+    for wname in ("WScal", "WCont", "WOpt"):
         wf = W[wname]["fields"]
-        inner_maps = [{"WIn": tin_same}] if wname == "WScal" else [
+        inner_maps = [{"WIn": tin_same}] if wname != "WCont" else [
             {"WIn": tin_same}, {"WIn": tin_unk}, {"WIn": tin_drop}, {"WIn": tin_req}, {"WIn": tin_init}]
         for mp in inner_maps:
             tag = mp["WIn"]
@@ -133,7 +139,7 @@ def build_pairs(rng, quick=True):
         P.reader(wname, f, "swapids", unk=True, mapping=mp)
         # added fields (reader is newer): optional pointer, default, with declared defaults, required
         extra = [field(100, "optional", T("i64", True)), field(101, "default", T("string")),
-                 field(102, "default", L(T("i32"))), field(0, "optional", ST(tin_same, True))]
+                 field(102, "default", L(T("i32"))), field(65535, "optional", ST(tin_same, True))]
         P.reader(wname, wf + extra, "added", mapping=mp)
         e2 = copy.deepcopy(extra)
         e2[1]["def"] = list(b"hello")
